@@ -148,6 +148,7 @@ def run_iter(ctx, rep, rule):
                                f"{k}: {hit} applied to an iterator of RusticResult items silently DROPS read errors (a tampered or unreadable file is skipped instead of reported)")
     rep.count(f"{rule}: adaptor sites over RusticResult items", n)
     run_items(ctx, rep, rule + "i")
+    run_reads(ctx, rep, rule)
 
 
 # ---- items of a loop over streamed repository reads are propagated -------------------------------------------
@@ -207,3 +208,38 @@ def run_strict_readers(ctx, rep, rule, roots_rx, what):
     rep.check(rule, f"strict-readers/{what}", not hit, where=roots[0].loc(),
               what=f"{what} never reads its snapshots through the warn-and-skip lister (an unreadable snapshot file is an error)" if not hit else
                    f"{what} obtains snapshots through the lenient lister ({' -> '.join(strip_crate(x) for x in chain[-4:])}): an unreadable / tampered snapshot file is silently left out")
+
+
+READ_PRIM = re.compile(r"DecryptReadBackend(>)?::(get_file|read_encrypted_full|read_encrypted_partial|read_encrypted_from_partial|decrypt|stream_all|stream_list)$"
+                       r"|ReadBackend(>)?::(read_full|read_partial|list|list_with_size)$|Tree::from_backend$|SnapshotFile::from_backend$|::find_id$|::find_ids$")
+READ_EXC = {
+    "<backend::warm_up::WarmUpAccessBackend as backend::ReadBackend>::warm_up": "the access that triggers the warm-up; its data and outcome are irrelevant by design (the wait/read that follows reports errors)",
+}
+
+
+def run_reads(ctx, rep, rule):
+    """no Result of a repository READ (file, blob, listing, stream creation) is thrown away: `.ok()`, `unwrap_or*`,
+    `is_ok()`, `_ = ..` on such a call turns an authentication / I/O failure into 'nothing there'"""
+    prog = ctx.prog
+    rep.rule(rule + "r", "no Result of a repository read is discarded (.ok(), unwrap_or*, is_ok(), unused)")
+    n = 0
+    ordn = {}
+    for b in prog.by_crate["rustic_core"]:
+        for bb, t in b.calls():
+            if "callee" not in t or not (READ_PRIM.search(callee(t)) or READ_PRIM.search(callee_decl(t))):
+                continue
+            if not t.get("dest_ty", "").startswith("std::result::Result"):
+                continue
+            n += 1
+            kind, via = classify(b, bb)
+            k = fn_key(b)
+            c = strip_crate(callee_decl(t)).rsplit("::", 1)[-1]
+            ordn[(k, c)] = ordn.get((k, c), 0) + 1
+            bad = kind in ("discarded", "dropped")
+            why = READ_EXC.get(k) if bad else None
+            if bad or why:
+                rep.check(rule + "r", f"{k}/{c}/{ordn[(k, c)]}", why is not None, where=where(b, bb),
+                          what=f"{k}: result of {c} is {kind} [exception: {why}]" if why else
+                               f"{k}: the Result of the repository read {c} is {kind}" + (f" via {strip_crate(via)}" if via else "") + ": a failed (tampered, unreadable) read is treated as absent data")
+    rep.count(f"{rule}r: repository read call sites", n)
+    rep.floor(rule + "r", "repository read call sites returning Result", n, 60)
